@@ -4,6 +4,7 @@ def b_Rectangle_create_rectangle_node : CR.SrcW.Builder where
   kind := .node
   tag := "rectangle"
   xsd := "rectangle"
+  path := []
   parent := ""
   attrs := []
   gattrs := []
@@ -26,7 +27,8 @@ def b_Rectangle_create_rectangle_node_center : CR.SrcW.Builder where
   key := "RectangleXMLNode.create_rectangle_node/center"
   kind := .node
   tag := "center"
-  xsd := ""
+  xsd := "rectangle"
+  path := ["center"]
   parent := "RectangleXMLNode.create_rectangle_node"
   attrs := []
   gattrs := []
@@ -41,7 +43,8 @@ def b_Rectangle_create_rectangle_node_center_y : CR.SrcW.Builder where
   key := "RectangleXMLNode.create_rectangle_node/center/y"
   kind := .node
   tag := "y"
-  xsd := ""
+  xsd := "rectangle"
+  path := ["center", "y"]
   parent := "RectangleXMLNode.create_rectangle_node/center"
   attrs := []
   gattrs := []
@@ -54,7 +57,8 @@ def b_Rectangle_create_rectangle_node_center_x : CR.SrcW.Builder where
   key := "RectangleXMLNode.create_rectangle_node/center/x"
   kind := .node
   tag := "x"
-  xsd := ""
+  xsd := "rectangle"
+  path := ["center", "x"]
   parent := "RectangleXMLNode.create_rectangle_node/center"
   attrs := []
   gattrs := []
@@ -67,7 +71,8 @@ def b_Rectangle_create_rectangle_node_orientation : CR.SrcW.Builder where
   key := "RectangleXMLNode.create_rectangle_node/orientation"
   kind := .node
   tag := "orientation"
-  xsd := ""
+  xsd := "rectangle"
+  path := ["orientation"]
   parent := "RectangleXMLNode.create_rectangle_node"
   attrs := []
   gattrs := []
@@ -80,7 +85,8 @@ def b_Rectangle_create_rectangle_node_width : CR.SrcW.Builder where
   key := "RectangleXMLNode.create_rectangle_node/width"
   kind := .node
   tag := "width"
-  xsd := ""
+  xsd := "rectangle"
+  path := ["width"]
   parent := "RectangleXMLNode.create_rectangle_node"
   attrs := []
   gattrs := []
@@ -93,7 +99,8 @@ def b_Rectangle_create_rectangle_node_length : CR.SrcW.Builder where
   key := "RectangleXMLNode.create_rectangle_node/length"
   kind := .node
   tag := "length"
-  xsd := ""
+  xsd := "rectangle"
+  path := ["length"]
   parent := "RectangleXMLNode.create_rectangle_node"
   attrs := []
   gattrs := []
